@@ -1717,18 +1717,22 @@ theorem C10_nll_born_rbm_mixed_dict (ε : ℝ) (d : Char → M2 ℝ) (hZ : m2c (
   C10_nll_formula_born_mixed ε d hZ _ _ _ (C10_rbm_diag am ph) samples bs hlen hne
 
 /-- **C10.3, what the driver runs for a `ComplexWaveFunction(…, unitary_dict=create_dict(**kw))`**: hypothesis on the
-dictionary reduced to "the user did not register a non-identity `Z`". -/
+dictionary reduced to "the user did not register a non-identity `Z`".  SCOPE (`_hkeys`, not used by the proof): every letter
+of every basis is a key of `create_dict(**kw)` — for an unregistered letter the code raises `KeyError` whereas the model's
+`userDict` (`dictFn`: `getD`) would rotate with the identity and return `.ok`; such calls are outside the statement. -/
 theorem C10_nll_born_rbm_userDict (ε : ℝ) (kw : Unitaries.UDict ℝ) (hZ : ∀ e ∈ kw, e.1 = 'Z' → m2c e.2 = 1)
     (am ph : RBM ℝ n h) (samples : List (Fin n → Bool)) (bs : List (Basis n))
+    (_hkeys : ∀ b' ∈ bs, ∀ j, ((Unitaries.createDict kw).lookup (b'.get j)).isSome = true)
     (hlen : bs.length = samples.length) (hne : samples ≠ []) :
     nllPure ε n (some (userDict kw)) (rbmPsi am ph) (rbmProb am) (rbmZ am) samples (some bs)
       = .ok ⟨.pyfloat, -(((bs.zip samples).map (fun s => Real.log (clampProbs ε
           (bornPure (usOf (userDict kw) s.1) (fun τ => C10L.toC (rbmPsi am ph τ)) s.2 / rbmZ am)))).sum) / samples.length⟩ :=
   C10_nll_born_rbm_dict ε _ (C10_userDict_Z kw hZ) am ph samples bs hlen hne
 
-/-- … and for a `DensityMatrix(…, unitary_dict=create_dict(**kw))` -/
+/-- … and for a `DensityMatrix(…, unitary_dict=create_dict(**kw))` (same scope `_hkeys`: registered letters only) -/
 theorem C10_nll_born_rbm_mixed_userDict (ε : ℝ) (kw : Unitaries.UDict ℝ) (hZ : ∀ e ∈ kw, e.1 = 'Z' → m2c e.2 = 1)
     (am ph : PRBM ℝ n h a) (samples : List (Fin n → Bool)) (bs : List (Basis n))
+    (_hkeys : ∀ b' ∈ bs, ∀ j, ((Unitaries.createDict kw).lookup (b'.get j)).isSome = true)
     (hlen : bs.length = samples.length) (hne : samples ≠ []) :
     nllMixed ε n (userDict kw) (rbmRho am ph) (rbmProbD am) (rbmZd am) samples (some bs)
       = .ok ⟨.pyfloat, -(((bs.zip samples).map (fun s => Real.log (clampProbs ε
@@ -1737,11 +1741,13 @@ theorem C10_nll_born_rbm_mixed_userDict (ε : ℝ) (kw : Unitaries.UDict ℝ) (h
   C10_nll_born_rbm_mixed_dict ε _ (C10_userDict_Z kw hZ) am ph samples bs hlen hne
 
 /-- **C10.2b for `ComplexWaveFunction(…, unitary_dict=create_dict(**kw))`**: `KL ≥ 0` over every non-empty list of bases
-written with ANY letters, for every normalised target — the hypothesis on the dictionary is only that the REGISTERED
-matrices are unitary. -/
+written with REGISTERED letters (`_hkeys`: every letter is a key of `create_dict(**kw)`; a scope condition the proof does not
+use — for an unregistered letter the code raises `KeyError`, the model's `getD` would rotate with the identity), for every
+normalised target — the hypothesis on the dictionary is only that the REGISTERED matrices are unitary. -/
 theorem C10_kl_nonneg_rbm_userDict (ε : ℝ) (hε : 0 < ε) (kw : Unitaries.UDict ℝ)
     (hkw : ∀ e ∈ kw, (m2c e.2)ᴴ * m2c e.2 = 1)
     (am ph : RBM ℝ n h) (t : ℕ → C ℝ) (ht : normSqVec (2 ^ n) t = 1) (b : Basis n) (bs : List (Basis n))
+    (_hkeys : ∀ b' ∈ b :: bs, ∀ j, ((Unitaries.createDict kw).lookup (b'.get j)).isSome = true)
     (hguard : ∀ b' ∈ b :: bs, TGuard1 ε (2 ^ n) (pureBorn n (userDict kw) b' t)
         ∧ InGuard ε (2 ^ n) (fun k => pureBorn n (userDict kw) b' (vecOf n (rbmPsi am ph)) k / rbmZ am)) :
     ∃ v, klPure ε n (some (userDict kw)) (rbmPsi am ph) (rbmProb am) (rbmZ am) (.once t) (some (b :: bs))
@@ -1749,11 +1755,12 @@ theorem C10_kl_nonneg_rbm_userDict (ε : ℝ) (hε : 0 < ε) (kw : Unitaries.UDi
   C10_kl_nonneg_rbm ε hε _ (C10_userDict_unitary kw hkw) am ph t ht b bs hguard
 
 /-- **C10.2b for `DensityMatrix(…, unitary_dict=create_dict(**kw))`** (registered matrices unitary, `Z` not replaced by a
-non-identity) -/
+non-identity; bases written with REGISTERED letters: scope condition `_hkeys` as in `C10_kl_nonneg_rbm_userDict`) -/
 theorem C10_kl_nonneg_mixed_rbm_userDict (ε : ℝ) (hε : 0 < ε) (kw : Unitaries.UDict ℝ)
     (hkw : ∀ e ∈ kw, (m2c e.2)ᴴ * m2c e.2 = 1) (hZ : ∀ e ∈ kw, e.1 = 'Z' → m2c e.2 = 1)
     (am ph : PRBM ℝ n h a) (T : ℕ → ℕ → C ℝ)
     (hT1 : ∑ k : Fin (2 ^ n), (T k.val k.val).1 = 1) (b : Basis n) (bs : List (Basis n))
+    (_hkeys : ∀ b' ∈ b :: bs, ∀ j, ((Unitaries.createDict kw).lookup (b'.get j)).isSome = true)
     (hguard : ∀ b' ∈ b :: bs, TGuard1 ε (2 ^ n) (mixedBorn n (userDict kw) b' (matAt n T))
         ∧ InGuard ε (2 ^ n) (fun k => mixedBorn n (userDict kw) b' (rbmRho am ph) k / rbmZd am)) :
     ∃ v, klMixed ε n (userDict kw) (rbmRho am ph) (rbmProbD am) (rbmZd am) (.once T) (some (b :: bs))
@@ -1909,11 +1916,11 @@ example : Unitaries.siteUs (Unitaries.unitariesOf none (some (Unitaries.createDi
 measured in the bases `H S` and `Y Z` of a 2-qubit state with arbitrary parameters -/
 example (ε : ℝ) (am ph : RBM ℝ 2 h) : ∃ v, nllPure ε 2 (some (userDict exKw)) (rbmPsi am ph) (rbmProb am) (rbmZ am)
     [fun _ => true, fun j => j = 0] (some [⟨#['H', 'S'], rfl⟩, ⟨#['Y', 'Z'], rfl⟩]) = .ok ⟨.pyfloat, v⟩ :=
-  ⟨_, C10_nll_born_rbm_userDict ε exKw exKw_Z am ph _ _ rfl (by simp)⟩
+  ⟨_, C10_nll_born_rbm_userDict ε exKw exKw_Z am ph _ _ (by decide) rfl (by simp)⟩
 
 example (ε : ℝ) (am ph : PRBM ℝ 2 h a) : ∃ v, nllMixed ε 2 (userDict exKw) (rbmRho am ph) (rbmProbD am) (rbmZd am)
     [fun _ => true, fun j => j = 0] (some [⟨#['H', 'S'], rfl⟩, ⟨#['Y', 'Z'], rfl⟩]) = .ok ⟨.pyfloat, v⟩ :=
-  ⟨_, C10_nll_born_rbm_mixed_userDict ε exKw exKw_Z am ph _ _ rfl (by simp)⟩
+  ⟨_, C10_nll_born_rbm_mixed_userDict ε exKw exKw_Z am ph _ _ (by decide) rfl (by simp)⟩
 
 end userdict
 
